@@ -7,7 +7,8 @@ import (
 	"kverif/kvfmt"
 )
 
-// runF1 replays the defect witnesses on the real Conn / Batch:
+// runF1 runs the witnesses of three defects this check found (fixed in /repo since) on the real
+// Conn / Batch as regression cases:
 //   F1: a fetch at offset 100 answered with one retained empty v2 batch (61 bytes) —
 //       Batch.Close stores 1 into Conn.offset and the next fetch is issued at offset 1;
 //   two consecutive empty batches in the middle of a response followed by more data —
